@@ -94,6 +94,8 @@ type Contracts struct {
 	Specs       map[string]*SpecFunc
 	TypeInvs    []*TypeInv
 	FoldedKeys  map[string]bool // map type names whose keys are always lower-cased
+	ImmutableField map[string][]string // "T.f" -> properties: the field is only written on objects allocated by the writing function
+	FoldedKeyProps map[string][]string // extra properties served by the obligations on that map type
 	FoldedField map[string]bool // "T.f" string fields that always hold lower-cased text
 	FoldedElems map[string]bool // "T.f" []string fields whose elements are all lower-cased
 	NlfreeField map[string]bool
@@ -126,6 +128,8 @@ func loadContracts(dir string) (*Contracts, error) {
 		NlfreeString: map[string]bool{},
 		Specs:       map[string]*SpecFunc{},
 		FoldedKeys:  map[string]bool{},
+		FoldedKeyProps: map[string][]string{},
+		ImmutableField: map[string][]string{},
 		FoldedField: map[string]bool{},
 		FoldedElems: map[string]bool{},
 		NlfreeField: map[string]bool{},
@@ -312,8 +316,8 @@ func (cs *Contracts) parseFile(file, src string) {
 				curLoop = &LoopSpec{Key: r, Ordinal: ord}
 				cur.Loops = append(cur.Loops, curLoop)
 			}
-		case "body_calls", "at_call":
-			// body_calls F iff COND      at_call F: EXPR
+		case "body_calls", "at_call", "body_stores":
+			// body_calls F iff COND      at_call F: EXPR      body_stores T.f iff COND
 			if curLoop == nil && cur == nil {
 				cs.errf(file, ln, "%s outside func block", kw)
 				continue
@@ -334,6 +338,11 @@ func (cs *Contracts) parseFile(file, src string) {
 				continue
 			}
 			bc := &BodyCall{Fn: strings.TrimSpace(txt[:j]), Text: txt, Props: props}
+			if kw == "body_stores" {
+				bc.Fn = "store:" + bc.Fn
+				bc.Text = "stores " + txt
+				kw = "body_calls"
+			}
 			switch {
 			case kw == "body_calls" && curLoop != nil:
 				bc.Cond = ex
@@ -444,7 +453,20 @@ func (cs *Contracts) parseFile(file, src string) {
 			cs.NonNilBoxed[strings.TrimSpace(rest)] = true
 			cur = nil
 		case "folded_keys":
-			cs.FoldedKeys[strings.TrimSpace(rest)] = true
+			// folded_keys <map type> [also Cxx Cyy]
+			ty := strings.TrimSpace(rest)
+			if j := strings.Index(ty, " also "); j > 0 {
+				cs.FoldedKeyProps[strings.TrimSpace(ty[:j])] = strings.Fields(ty[j+6:])
+				ty = strings.TrimSpace(ty[:j])
+			}
+			cs.FoldedKeys[ty] = true
+			cur = nil
+		case "immutable":
+			// immutable T.f [props...]
+			fs := strings.Fields(rest)
+			if len(fs) > 0 {
+				cs.ImmutableField[fs[0]] = fs[1:]
+			}
 			cur = nil
 		case "folded_elems":
 			for _, f := range strings.Fields(rest) {
